@@ -451,8 +451,15 @@ def grid_items(tier):
                         yield elements, side_a, side_b, mode, fudge, split
 
 
-def system_items():
-    for layout in LAYOUTS:
+# thorough only: five atoms in three residues (a complete three-atom residue between two others; an unknown residue in the middle)
+LAYOUTS_5 = [
+    [('C', 0, 'A1', 'S1'), ('N', 1, 'A1', 'RB'), ('C', 1, 'A2', 'RB'), ('O', 1, 'A3', 'RB'), ('H', 2, 'A2', 'S2')],
+    [('C', 0, 'A1', 'RN'), ('H', 0, 'A3', 'RN'), ('S', 1, 'Z1', 'UNK'), ('C', 2, 'A2', 'S2'), ('O', 2, 'A4', 'S2')],
+]
+
+
+def system_items(tier='quick'):
+    for layout in (LAYOUTS if tier == 'quick' else LAYOUTS + LAYOUTS_5):
         n = len(layout)
         for gaps in itertools.product((True, False), repeat=n - 1):
             for order in itertools.permutations(range(n)):
@@ -462,13 +469,13 @@ def system_items():
 
 
 def run(ctx):
-    ctx.bound = {'elements': ELEMENTS, 'fudge': [0.8, 1.0, 1.2], 'system_atoms': '3-4 in 2-3 residues'}
+    ctx.bound = {'elements': ELEMENTS, 'fudge': [0.8, 1.0, 1.2], 'system_atoms': '3-4 in 2-3 residues' if ctx.quick else '3-5 in 2-3 residues'}
     pcs = list(pair_cases())
     acc = Acc()
     for part in common.pmap(work, [('pairs', chunk) for chunk in common.chunked(pcs, max(1, len(pcs) // 64))]):
         acc += part
     ctx.layer('pairs', acc)
-    items = list(system_items())
+    items = list(system_items(ctx.tier))
     if ctx.quick:
         items = [it for it in items if it[2] == tuple(range(len(it[0]))) or it[2] == tuple(reversed(range(len(it[0])))) or len(it[0]) == 3]
     acc = Acc()
